@@ -85,6 +85,7 @@ def run(rep, tier, props):
             ndrift += 1
             if ndrift <= 3:
                 rep.note('transcription drift (not an alarm): %s on %s' % (r['drift'][0], r['hsig']))
+    rep.traces_validated += len(jobs)
     rep.extra['partition_replays'] = len(jobs)
     rep.extra['partition_replays_solved'] = solved
     rep.extra['partition_transcription_drift'] = ndrift
